@@ -165,6 +165,7 @@ type builder struct {
 	sitesW   int
 	filesW   []string
 	overlayS string
+	overlayP string // sync-only overlay of the otherwise uninstrumented builds
 	mu       sync.Mutex
 	built    map[string]string
 }
@@ -208,6 +209,18 @@ func (b *builder) goCmd(args ...string) *exec.Cmd {
 	c.Dir = simDir
 	c.Env = goEnv
 	return c
+}
+
+func (b *builder) ensureOverlayP() {
+	if b.overlayP != "" {
+		return
+	}
+	gen := filepath.Join(b.dir, "genp")
+	os.RemoveAll(gen)
+	if _, err := instr.GenerateMode(repoDir, gen, -1); err != nil {
+		infra("instrumenter: %v", err)
+	}
+	b.overlayP = filepath.Join(gen, "overlay.json")
 }
 
 func (b *builder) ensureOverlayS() {
@@ -273,6 +286,10 @@ func (b *builder) build(vn string) string {
 	}
 	if v.race {
 		args = append(args, "-race")
+	}
+	if !v.instr {
+		b.ensureOverlayP()
+		args = append(args, "-overlay", b.overlayP)
 	}
 	if v.instr {
 		b.ensureOverlay(v.wide)
@@ -576,6 +593,11 @@ func runCheck(id string) int {
 	for _, v := range vnames {
 		if variants[v].instr {
 			b.ensureOverlay(variants[v].wide)
+			if variants[v].strobe {
+				b.ensureOverlayS()
+			}
+		} else {
+			b.ensureOverlayP()
 		}
 	}
 	var bw sync.WaitGroup
@@ -687,6 +709,7 @@ func runCheck(id string) int {
 	nviol := 0
 	var lines []string
 	reported := 0
+	var unconfirmed []string
 	for _, v := range uniq {
 		if reported >= 6 && kf.match(v.Violation) == nil {
 			fmt.Printf("  (further violation %s not confirmed individually: report limit reached)\n", v.ID())
@@ -702,7 +725,9 @@ func runCheck(id string) int {
 		// confirm in a fresh process (and minimise race-class tapes across processes)
 		final, ok := confirm(b, v)
 		if !ok {
-			infra("violation %s (run %d) did not reproduce on replay of %s", v.ID(), v.RunIndex, v.Replay)
+			unconfirmed = append(unconfirmed, fmt.Sprintf("%s (run %d, %s)", v.ID(), v.RunIndex, v.Replay))
+			fmt.Printf("  (violation %s of run %d did not reproduce on replay and is not reported)\n", v.ID(), v.RunIndex)
+			continue
 		}
 		os.MkdirAll(replDir, 0o755)
 		dst := filepath.Join(replDir, filepath.Base(final))
@@ -711,6 +736,10 @@ func runCheck(id string) int {
 		exit = 1
 		fmt.Printf("  violation %s: %s\n", v.ID(), firstLine(v.Detail))
 		lines = append(lines, fmt.Sprintf("VIOLATION property=%s replay=%s", v.Property, dst))
+	}
+	if nviol == 0 && len(unconfirmed) > 0 {
+		// something was observed but nothing could be reproduced: that is not a result
+		infra("%d violation(s) were observed but none reproduced on replay; first: %s", len(unconfirmed), unconfirmed[0])
 	}
 	writeEvidence(def, b, results, nviol, detRuns, time.Since(t0).Seconds())
 	for _, l := range lines {
